@@ -361,6 +361,31 @@ def worker(job):
             R.violation("unsatisfied-constraint", "constraint %s unsatisfied after @snark calls" % bad[:3], calls=desc)
         R.case(cell="%s|%s|calls%d" % ("+".join(sorted(mix)), "+".join(sorted(conts)) or "flat", ncalls), key=repr(desc), nontrivial=bool(out_vars))
         R.sample(dict(calls=desc), cap=4)
+        # a wrapped function without arguments: nothing becomes a public input, its secret results are published all the same
+        if case_no % 5 == 0:
+            N(bitlength=16, resolution=res_bits, modulus=p)
+            k1, k2 = rnd.randint(-9, 9), rnd.randint(-20, 20) / 4.0
+
+            def noargs(k1=k1, k2=k2):
+                a, b = prt.PrivVal(k1), fx.PrivValFxp(k2)
+                return [a * 2, {"f": b + 1, "c": a < 5}, "tag", 7]
+            nev0 = len(recorder.events)
+            try:
+                got0 = prt.snark(noargs)()
+            except Exception as e:  # noqa
+                R.violation("no-argument-call-raised", "a wrapped function without arguments raised %r" % (e,), k1=k1, k2=k2)
+                got0 = None
+            if got0 is not None:
+                pubs0 = [e[2] % p for e in recorder.events[nev0:] if e[0] == "pub"]
+                want0 = [(2 * k1) % p, int((k2 + 1) * (1 << res_bits)) % p, int(k1 < 5)]
+                R.count("no_argument_calls_judged")
+                R.case(cell="no-arguments|res%d" % res_bits, key=("noargs", k1, k2, res_bits, p))
+                flat0 = flatten([got0], [])
+                if pubs0 != want0:
+                    R.violation("public-outputs-differ:no-arguments", "public values %s, secret results in order %s" % (pubs0, want0), k1=k1, k2=k2, resolution=res_bits, p=p)
+                elif any(hasattr(x, "lc") for x in flat0) or not same_plain(got0, [2 * k1, {"f": k2 + 1, "c": int(k1 < 5)}, "tag", 7]):
+                    R.violation("returned-structure-differs:no-arguments", "wrapped call without arguments returned %s" % (repr(got0)[:200],), k1=k1, k2=k2, resolution=res_bits, p=p)
+            recorder.reset()
         # kwargs refused
         if case_no % 10 == 0:
             for kw in ({"b": 2}, {"b": 0}, {"b": None}, {"b": False}, {"b": []}, {"b": 0.0}, {"b": ""}):
